@@ -382,6 +382,38 @@ def one_history(r, kind, rcls, ocls, op, dta, dtb, rlabels=None, olabels=None, e
         res = pair_op(h, r, op, 'm', 'o')
     site = h.site
     follow_ups(h, r, res, r.randint(2, 6) if nfollow is None else nfollow)
+    if not h.bad and nfollow is None and r.random() < .4:
+        # a NEW native model built from the result: copy / deepcopy / file round trip / constructor from another model /
+        # relabelled copy; the new model is audited like every live model and then edited
+        h.ns['copy'] = __import__('copy')
+        rr = h.refs[res]
+        T = 'QuadraticModel' if rr.kind == 'qm' else 'BinaryQuadraticModel'
+        how = r.choice(['copy', 'deepcopy', 'file', 'ctor' if rr.kind == 'bqm' else 'copy', 'from_bqm' if rr.kind == 'bqm' else 'file', 'relabel'])
+        n2 = rr.copy()
+        if how == 'copy':
+            h.refs['n2'] = n2; h.do('n2 = %s.copy()' % res, T + '.copy')
+        elif how == 'deepcopy':
+            h.refs['n2'] = n2; h.do('n2 = copy.deepcopy(%s)' % res, 'copy.deepcopy(%s)' % T)
+        elif how == 'file':
+            h.refs['n2'] = n2; h.do('n2 = dimod.%s.from_file(%s.to_file())' % (T, res), T + '.from_file')
+        elif how == 'ctor':
+            h.refs['n2'] = n2; h.do('n2 = dimod.BinaryQuadraticModel(%s)' % res, 'BinaryQuadraticModel(BinaryQuadraticModel)')
+        elif how == 'from_bqm':
+            n2.kind = 'qm'; h.refs['n2'] = n2; h.do('n2 = dimod.QuadraticModel.from_bqm(%s)' % res, 'QuadraticModel.from_bqm')
+        else:
+            perm = list(rr.labels); r.shuffle(perm)
+            mp = dict(zip(rr.labels, perm))
+            n2.labels = [mp[v] for v in rr.labels]
+            n2.lin = {mp[v]: x for v, x in rr.lin.items()}
+            n2.quad = {frozenset(mp[v] for v in k): x for k, x in rr.quad.items()}
+            if rr.kind == 'qm' and any(DECL[v] != DECL[mp[v]] for v in rr.labels):
+                n2 = None      # a quadratic model keeps vartype and bounds per position: only type-preserving renamings
+            if n2 is not None:
+                h.refs['n2'] = n2; h.do('n2 = %s.relabel_variables(%r, inplace=False)' % (res, mp), T + '.relabel_variables(inplace=False)')
+        if 'n2' in h.refs:
+            site = h.site
+            h.cls += ', then a new model built from the result'
+            follow_ups(h, r, 'n2', r.randint(2, 4))
     if not h.bad and r.random() < .3 and op not in ('from_bqm', 'qm-update-bqm'):
         # a second pair operation with the same argument (now every variable is shared)
         pair_op(h, r, r.choice(['update', 'iadd', 'isub']), res, 'o')
@@ -491,7 +523,7 @@ def cqm_history(r):
                 n.ensure(u); n.ensure(v); n.quad[kk] = n.quad.get(kk, F(0)) + b
         return n
     if builder in ('fix', 'fix1'):
-        cand = list(allv)
+        cand = [v for v in allv if any(v in ref.lin for ref in views.values())]      # only variables the model has
         fv = r.sample(cand, 1 if builder == 'fix1' else r.randint(0, max(0, len(cand) - 3)))
         fixed = {}
         for v in fv:
@@ -534,14 +566,13 @@ def cqm_history(r):
             break
         nm = r.choice(names); ref = h.refs[nm]
         keys = sorted(ref.quad, key=repr)
-        c = r.choice(['ri', 'sq', 'aq', 'aq'])
-        if c == 'ri' and keys:
+        c = r.choice(['ri', 'aq', 'aq', 'al'])      # (an expression view has no set_quadratic: NotImplementedError)
+        if c == 'al' and ref.labels:
+            h.al(nm, r.choice(ref.labels), q4(r))
+        elif c == 'ri' and keys:
             t = tuple(r.choice(keys)); u, v = (t[0], t[-1]) if r.random() < .5 else (t[-1], t[0])
             del ref.quad[frozenset((u, v))]
             h.do('%s.remove_interaction(%r, %r)' % (nm, u, v), 'remove_interaction')
-        elif c == 'sq' and keys:
-            t = tuple(r.choice(keys)); u, v = (t[0], t[-1]) if r.random() < .5 else (t[-1], t[0])
-            h.aq(nm, u, v, q4(r), 'set_quadratic')
         elif len(ref.labels) >= 2:
             u, v = r.sample(ref.labels, 2)
             if u != v and DECL[u][0] != 'REAL' and DECL[v][0] != 'REAL':
@@ -684,6 +715,9 @@ def pyseq_part(ctx):
         if ' += ' in call: site = '__iadd__'
         if ' -= ' in call: site = '__isub__'
         if call.startswith('n = ') and (' + ' in call or ' - ' in call): site = 'sum / difference of two models'
+        import re as _re
+        mm = _re.search(r'\.(fix_variables|from_file|spin_to_binary|deepcopy|set_objective|add_constraint_from_model|from_bqm)\(', call)
+        if mm: site = mm.group(1)
         ctx.fail('crash', site, 'interpreter died during a valid call sequence',
                  f'child exited {rc} while running `{call}`; stderr: {(err2 or err)[-400:]}',
                  repro=("import subprocess, sys\nsrc = %r\np = subprocess.run([sys.executable, '-c', src], capture_output=True, text=True)\n"
